@@ -94,11 +94,12 @@ def focus_fixed_sampling(wavefunction, input_dx, prop_dist,
     if not isinstance(output_samples, Iterable):
         output_samples = (output_samples, output_samples)
 
-    dia = wavefunction.shape[0] * input_dx
-    Q = Q_for_sampling(input_diameter=dia,
-                       prop_dist=prop_dist,
-                       wavelength=wavelength,
-                       output_dx=output_dx)
+    # one Q per axis (rows, columns): a non-square array has a different
+    # physical width, and so a different resolution element, along each axis
+    Q = tuple(Q_for_sampling(input_diameter=s * input_dx,
+                             prop_dist=prop_dist,
+                             wavelength=wavelength,
+                             output_dx=output_dx) for s in wavefunction.shape)
     if shift[0] != 0 or shift[1] != 0:
         shift = (shift[0]/output_dx, shift[1]/output_dx)
 
